@@ -428,6 +428,19 @@ func (fr *Frame) encodeExtern(v *ssa.Call, cc *ssa.CallCommon, args []Term, at T
 			}
 		}
 	}
+	// an ASSUMED contract written in the contract file for a function of another package
+	if callee := cc.StaticCallee(); callee != nil {
+		if fc := c.eng.cf.Funcs[name]; fc != nil {
+			if fc.Trusted == "" {
+				c.errorf("%s: the contract of external function %s must be marked trusted", funcKey(fr.fn), name)
+			}
+			res := fr.applyContract(callee, fc, nil, cc, args, at, st)
+			if v != nil {
+				fr.setResultsRaw(v, res)
+			}
+			return
+		}
+	}
 	c.errorf("%s: external function %s has no entry in the trusted table", funcKey(fr.fn), name)
 	if v != nil {
 		sig := cc.Signature()
